@@ -9,14 +9,14 @@
     [BSEND c t n frame*n oracle_ms*n]      -> [TI skipped; VERIF BLOCKING dump]
          one write of n requests, no reply awaited (oracle_ms: -2 none, -1 refused timeout,
          0 forever, else milliseconds)
-    [BRECV c t]                            -> [TI 0; frames received on c since the last BRECV]
+    [BRECV c t]                            -> [TI 0; frames received on c since the last BRECV]   (nothing once the client has gone)
     [BCLOSE c t]                           -> [TI skipped; TI owed; frames not yet read]   the client goes away
     [BDUMP t]                              -> VERIF BLOCKING dump
 
     Harness discipline, computed alike on both sides from counts of requests written and
-    frames received ([owed] = written - received): a BSEND to a connection that owes a reply
-    (it is blocked) is skipped while another connection has requests waiting behind a
-    blocking call, and so is a BCLOSE of a connection with requests waiting - the order in
+    frames received ([owed] = written - received): a BSEND that may leave requests waiting
+    (to a connection that owes a reply, or with requests behind a blocking pop) is skipped while
+    another connection has requests waiting behind a blocking call, and so is a BCLOSE of a connection with requests waiting - the order in
     which the server would read two such connections is a HashMap iteration order. *)
 From Ferrous Require Import Base.Bytes Model.Resp Model.Types Model.Server Model.Conn Model.RunBase
   Model.RunSrv Model.Blocking.
@@ -62,8 +62,13 @@ Fixpoint zip_oracles (fs : list frame) (t : list tok) : list (frame * option Z) 
               end
   end.
 
-Definition skip_send (r : rstate) (c : Z) : bool :=
-  (0 <? owed r c) && ((zget (r_fin r) c =? 1) || existsb (fun c' => negb (c' =? c) && (1 <? owed r c')) (map fst (r_sent r))).
+(** may this write leave requests waiting: it goes to a connection that owes a reply, or it has
+    requests behind a blocking pop *)
+Definition may_wait (r : rstate) (c : Z) (batch : list (frame * option Z)) : bool :=
+  (0 <? owed r c) || existsb (fun fo => match snd fo with Some z => 0 <=? z | None => false end) (removelast batch).
+Definition skip_send (r : rstate) (c : Z) (batch : list (frame * option Z)) : bool :=
+  ((0 <? owed r c) && (zget (r_fin r) c =? 1))
+  || (may_wait r c batch && existsb (fun c' => negb (c' =? c) && (1 <? owed r c')) (map fst (r_sent r))).
 Definition has_finite (batch : list (frame * option Z)) : bool :=
   existsb (fun fo => match snd fo with Some z => 0 <? z | None => false end) batch.
 Definition unread (r : rstate) (c : Z) : list frame :=
@@ -119,9 +124,9 @@ Definition blk_op (r : rstate) (op : list tok) : list tok * rstate :=
                 if b_crashed (r_b r) then (dead_out, r) else
                 let fin0 := if owed r c =? 0 then zset_ c 0 (r_fin r) else r_fin r in
                 let r := {| r_s := r_s r; r_b := r_b r; r_now := r_now r; r_sent := r_sent r; r_read := r_read r; r_fin := fin0 |} in
-                if skip_send r c then (TI 1 :: dump_blocking (r_b r), r)
+                let batch := zip_oracles fs ot in
+                if skip_send r c batch then (TI 1 :: dump_blocking (r_b r), r)
                 else
-                  let batch := zip_oracles fs ot in
                   let sent := zset_ c (zget (r_sent r) c + n) (r_sent r) in
                   let r1 := {| r_s := r_s r; r_b := r_b r; r_now := t; r_sent := sent; r_read := r_read r;
                                r_fin := if has_finite batch then zset_ c 1 (r_fin r) else r_fin r |} in
@@ -147,10 +152,11 @@ Definition blk_op (r : rstate) (op : list tok) : list tok * rstate :=
             let r' := settle r t (r_s r, r_b r) in
             if b_crashed (r_b r') then (dead_out, r') else
             let all := frames_of (r_b r') c in
-            let fresh := skipn (Z.to_nat (zget (r_read r') c)) all in
+            let rd := zget (r_read r') c in      (* -1: the client has gone *)
+            let fresh := if rd <? 0 then [] else skipn (Z.to_nat rd) all in
             (TI 0 :: enc_frames (map canon fresh),
              {| r_s := r_s r'; r_b := r_b r'; r_now := r_now r'; r_sent := r_sent r';
-                r_read := zset_ c (len all) (r_read r'); r_fin := r_fin r' |})
+                r_read := (if rd <? 0 then r_read r' else zset_ c (len all) (r_read r')); r_fin := r_fin r' |})
         | _ => ([TB (bs "BADOP")], r)
         end
       else if beq name (bs "BDUMP") then
@@ -166,7 +172,10 @@ Definition blk_op (r : rstate) (op : list tok) : list tok * rstate :=
             else
               let b1 := if is_blocked (r_b r) c then with_dead (r_b r) (c :: b_dead (r_b r)) else drop_conn (r_b r) c in
               let r' := settle r t (del_conn (r_s r) c, b1) in
-              (TI 0 :: TI o :: enc_frames (map canon (unread r c)), r')
+              (* the client is gone: a later BRECV of this connection reports nothing *)
+              (TI 0 :: TI o :: enc_frames (map canon (unread r c)),
+               {| r_s := r_s r'; r_b := r_b r'; r_now := r_now r'; r_sent := r_sent r';
+                  r_read := zset_ c (-1) (r_read r'); r_fin := r_fin r' |})
         | _ => ([TB (bs "BADOP")], r)
         end
       else ([TB (bs "BADOP")], r)
